@@ -155,6 +155,29 @@ func c15Check(c C15Case, rec *evid.Rec) error {
 			}
 		}
 	}
+	// 2a'. the node budget on the transforming walk (identity function): it charges every node it walks, matched
+	// or merely explored, like the read-only walk; a budget below the unrestricted visit count stops it
+	if V <= 60 {
+		ident := func(_ traversal.Progress, n datamodel.Node) (datamodel.Node, error) { return n, nil }
+		if _, terr := (traversal.Progress{Cfg: cfg()}).WalkTransforming(real.Root, sel, ident); terr == nil {
+			for _, N := range []int{0, 1, V / 2, V - 1, V, V + 1} {
+				if N < 0 {
+					continue
+				}
+				gerr := evid.Guard("WalkTransforming", func() error {
+					_, e := traversal.Progress{Cfg: cfg(), Budget: &traversal.Budget{NodeBudget: int64(N), LinkBudget: bigBudget}}.WalkTransforming(real.Root, sel, ident)
+					return e
+				})
+				if N >= V && gerr != nil {
+					return fmt.Errorf("WalkTransforming of %s: the walk makes %d visits; with a node budget of %d it failed: %v", c.S, V, N, gerr)
+				}
+				if N < V && (gerr == nil || !budgetErr(gerr)) {
+					return fmt.Errorf("WalkTransforming of %s: the walk makes %d visits; with a node budget of %d: want ErrBudgetExceeded, got %v", c.S, V, N, gerr)
+				}
+				rec.Class("walks")
+			}
+		}
+	}
 	// 2b. the link budget on the path-directed functions: for visited paths that cross links, Get and Focus
 	// with a budget of M loads either do exactly what they do without a budget (M suffices) or stop with a
 	// budget error after exactly M loads
